@@ -16,4 +16,4 @@ package control_loop
 //@ func (*PidControlLoop).Cycle
 //@   props C01 C04
 //@   requires l.pidLoop != nil
-//@   modifies l.pidLoop.integral, l.pidLoop.error, l.pidLoop.lastTime
+//@   modifies l.pidLoop.integral, l.pidLoop.error, l.pidLoop.lastTime, lastPidOut
